@@ -87,9 +87,40 @@ func (vc *VC) lookupLocal(sc *SpecScope, name string) *Value {
 		}
 	}
 	if best == nil {
+		if nn := vc.renamedLocal(name); nn != "" && nn != name {
+			vc.depsUsed["contract identifier "+name+" resolved to the local "+nn+" (same declaration position and type as on the baseline tree: renamed local)"] = true
+			return vc.lookupLocal(sc, nn)
+		}
 		return nil
 	}
 	return vc.evalIdentObj(es, best)
+}
+
+// renamedLocal: a contract names a local that no longer exists. When the function declares the same number of variables
+// with the same types in the same order as on the baseline tree, the local at the position the name had there is meant.
+func (vc *VC) renamedLocal(name string) string {
+	if vc.fd == nil {
+		return ""
+	}
+	if baseLocals == nil {
+		loadBaseLocals()
+	}
+	base := baseLocals[vc.fname]
+	cur := localDecls(vc.pkg.P.TypesInfo, vc.fd)
+	if len(base) == 0 || len(base) != len(cur) {
+		return ""
+	}
+	for i := range base {
+		if base[i].Type != cur[i].Type {
+			return ""
+		}
+	}
+	for i := len(base) - 1; i >= 0; i-- {
+		if base[i].Name == name {
+			return cur[i].Name
+		}
+	}
+	return ""
 }
 
 func (vc *VC) resolveType(sc *SpecScope, name string) types.Type {
@@ -635,7 +666,13 @@ func (vc *VC) specCall(sc *SpecScope, x *SCall) *Value {
 				if sc.old != nil {
 					oldAlloc = sc.old.alloc
 				}
-				return boolV(smtAnd(smtNot(smtEq(a.Term, "0")), smtNot(sel(oldAlloc, a.Term)), sel(sc.cur.alloc, a.Term)))
+				t := a.Term
+				if a.K == VSlice {
+					t = a.Arr
+				} else if a.K != VInt {
+					vc.specFail(sc, "fresh() of a value that is not a reference")
+				}
+				return boolV(smtAnd(smtNot(smtEq(t, "0")), smtNot(sel(oldAlloc, t)), sel(sc.cur.alloc, t)))
 			case "allocated":
 				a := args()[0]
 				return boolV(sel(sc.cur.alloc, a.Term))
@@ -709,6 +746,13 @@ func (vc *VC) specCall(sc *SpecScope, x *SCall) *Value {
 			case "iface":
 				// iface(p, T): pointer p of type T boxed into an interface
 				a := vc.evalSpec(sc, x.Args[0])
+				if len(x.Args) == 1 {
+					// iface(v): the value v (of its static Go type) boxed into an interface
+					if a.T == nil {
+						vc.specFail(sc, "iface(v): the Go type of %s is not known", x.Args[0])
+					}
+					return vc.toInterface(sc.cur, a, a.T, nil)
+				}
 				T := vc.resolveType(sc, strings.Trim(x.Args[1].String(), "\""))
 				if T == nil {
 					vc.specFail(sc, "unknown type %s", x.Args[1])
@@ -727,6 +771,32 @@ func (vc *VC) specCall(sc *SpecScope, x *SCall) *Value {
 				return vc.load(sc.cur, *a.Addr)
 			case "qmarks":
 				return intV(app("qmarks", args()[0].Term), nil)
+			case "fmtHas":
+				// fmtHas(q, "text"): q was built by fmt.Sprintf from a constant format that contains the text
+				// (decided on the constant; unknown for any other string)
+				a := vc.evalSpec(sc, x.Args[0])
+				lit, ok := x.Args[1].(*SStr)
+				if !ok {
+					vc.specFail(sc, "fmtHas(q, \"literal\")")
+				}
+				needle := lit.V
+				if f, ok := vc.fmtOf[a.Term]; ok {
+					if strings.Contains(f, needle) {
+						return boolV("true")
+					}
+					return boolV("false")
+				}
+				if s, ok := vc.litOfTerm(a.Term); ok {
+					if strings.Contains(s, needle) {
+						return boolV("true")
+					}
+					return boolV("false")
+				}
+				return boolV(vc.fresh("fmtHas", "Bool"))
+			case "sqlverb":
+				// sqlverb(q): 1 SELECT, 2 INSERT, 3 UPDATE, 4 DELETE, 5 CREATE, 6 DROP, 7 ALTER, 8 PRAGMA, 0 anything else
+				vc.declareFun("sqlverb", "(Int) Int")
+				return intV(app("sqlverb", args()[0].Term), nil)
 			case "str":
 				// str(b): the string made of the bytes of slice b
 				a := args()[0]
